@@ -3,6 +3,9 @@ C03 — Equality is a coherent equivalence that agrees with hashing and sets.
 
 Property theorems only; helper lemmas live in `CtyModel/Lemmas`.
 -/
+import CtyModel.Lemmas.d03Rules
+import CtyModel.Lemmas.d03Marks
+import CtyModel.Lemmas.d03SetVal
 import CtyModel.Lemmas.SetRefineRun
 import CtyModel.Lemmas.ValEqRules
 import CtyModel.Lemmas.ValEqSymm
@@ -244,6 +247,39 @@ theorem unlawful_rules_counterexample :
     have := set_no_two_equivalent_members h 0 1 (by decide) (by decide)
     revert this
     decide
+
+/-! ### iteration order: the converse direction (d03, audit item 1) -/
+
+/-- Clause *"iterates in an order that depends only on its members"*, converse
+direction.  `values_order_indep_of_total` is an implication (total ⇒ order
+independent, for all sets).  The converse is true where insertion order can show
+at all — between two inequivalent values of ONE bucket (members of different
+buckets are laid out by bucket id, whatever `less` says): the two sets built
+from `x, y` and from `y, x` iterate alike **iff** `less` orders the two values. -/
+theorem values_order_indep_pair_iff (hR : R.Lawful) (less : α → α → Bool) (hl : R.less = some less) {x y : α}
+    (hh : R.hash x = R.hash y) (hne : R.equiv x y = false)
+    (hasym : ¬ (less x y = true ∧ less y x = true)) :
+    iter R (fromList R [x, y]) = iter R (fromList R [y, x]) ↔ (less x y = true ∨ less y x = true) :=
+  order_indep_pair_iff hR less hl hh hne hasym
+
+/-- both sides of the equivalence occur: `ordTies` leaves 0 and 3 unordered,
+`ordTotal` orders them -/
+example : ¬ iter Sample.ordTies (fromList Sample.ordTies [0, 3]) = iter Sample.ordTies (fromList Sample.ordTies [3, 0]) :=
+  fun h => absurd ((values_order_indep_pair_iff sample_ordTies_lawful _ rfl (by decide) (by decide) (by decide)).mp h)
+    (by decide)
+
+example : iter Sample.ordTotal (fromList Sample.ordTotal [0, 3]) = iter Sample.ordTotal (fromList Sample.ordTotal [3, 0]) :=
+  (values_order_indep_pair_iff sample_ordTotal_lawful _ rfl (by decide) (by decide) (by decide)).mpr (by decide)
+
+/-- Audit item 5: `sortStable` transliterates `sort.SliceStable` only up to 20
+elements (one insertion-sort block).  For longer member lists nothing about Go's
+block merging is needed: if `less` is a strict order total between inequivalent
+members, ANY ascending permutation of the members — the output of any correct
+sort — is the model's `valuesSorted`. -/
+theorem values_sorted_unique (less : α → α → Bool) {s : SetImpl α} (h : Inv R s)
+    (ht : StrictTotalOn R less (values s)) {l' : List α} (hp : l'.Perm (values s))
+    (hs : l'.Pairwise (fun a b => less a b = true)) : l' = valuesSorted less s :=
+  sorted_perm_eq_sortStable less (ht.toList h.nodup) hp hs
 
 end SetSlice
 /-! ######################## end of SECTION «cty/set» ######################## -/
@@ -600,6 +636,375 @@ theorem equals_agrees_with_rawEquals_false : ¬ EqualsAgreesWithRawEquals := by
     (by decide +kernel)).mp c.2.2.2.2.2.2.2.2.2
   rw [c.2.2.2.2.2.2.2.2.1] at this
   cases this
+
+/-! ########################################################################
+### d03 — the audit of C03, closed item by item
+
+Everything below speaks about the same transliterations as above.  The new
+frontier is `Payload.intMember e p`: well-formed for `e`, wholly known, no mark
+at any depth, **every number an integer — at ANY precision** (an infinite
+family; no per-list `decide` is left to the caller).
+######################################################################## -/
+
+/-! #### "any two values that are equal have the same hash" — stated on the hash itself (audit item 3) -/
+
+/-- The clause, directly on `makeSetHashBytes` / `Value.Hash` (not through the
+totalised `ctyRules.hash`): two `Equals`-true admitted members have the same hash
+bytes and the same hash — as RESULTS of the two calls, whatever they are. -/
+theorem equal_values_same_hash_partial (t : Ty) (ns : List Num) (a b : Payload) (hw : t.wf = true)
+    (hp : t.plain = true) (hc : HashCoherentNums ns = true) (ha : a.member t ns = true) (hb : b.member t ns = true)
+    (h : equals ⟨t, a⟩ ⟨t, b⟩ = .ok (boolVal true)) :
+    hashBytes ⟨t, a⟩ = hashBytes ⟨t, b⟩ ∧ Value.hash ⟨t, a⟩ = Value.hash ⟨t, b⟩ := by
+  have sa := Member.spec (e := t) (ns := ns) ⟨a, ha⟩
+  have sb := Member.spec (e := t) (ns := ns) ⟨b, hb⟩
+  rw [equals_of_members hw hp sa.1 sa.2.1 sa.2.2.1 sb.1 sb.2.1 sb.2.2.1] at h
+  have hr : rawB t a b = true := by cases hq : rawB t a b <;> simp_all [boolVal]
+  have hbytes : hashBytes ⟨t, a⟩ = hashBytes ⟨t, b⟩ :=
+    hashBytesP_eq_of_rawB hp hc sa.1 sa.2.2.2 sb.1 sb.2.2.2 hr
+  exact ⟨hbytes, hash_eq_of_hashBytes_eq hbytes (by simp [Value.containsMarked, sa.2.2.1, sb.2.2.1])⟩
+
+/-- **All integers are hash-coherent** (missing theorem (b)): the side condition
+`HashCoherentNums` holds of every list of integers, whatever their precisions. -/
+theorem hash_coherent_ints (ns : List Num) (h : ns.all Num.isInt = true) : HashCoherentNums ns = true :=
+  hashCoherentNums_of_allInt ns h
+
+/-- …so for members all of whose numbers are integers the clause holds with no
+side condition left. -/
+theorem equal_values_same_hash_ints (t : Ty) (a b : Payload) (hw : t.wf = true) (hp : t.plain = true)
+    (ha : a.intMember t = true) (hb : b.intMember t = true)
+    (h : equals ⟨t, a⟩ ⟨t, b⟩ = .ok (boolVal true)) :
+    hashBytes ⟨t, a⟩ = hashBytes ⟨t, b⟩ ∧ Value.hash ⟨t, a⟩ = Value.hash ⟨t, b⟩ := by
+  obtain ⟨wa, ka, ma, ia⟩ := Payload.intMember_spec ha
+  obtain ⟨wb, kb, mb, ib⟩ := Payload.intMember_spec hb
+  rw [equals_of_members hw hp wa ka ma wb kb mb] at h
+  have hr : rawB t a b = true := by cases hq : rawB t a b <;> simp_all [boolVal]
+  have hbytes : hashBytes ⟨t, a⟩ = hashBytes ⟨t, b⟩ := hashBytesP_eq_of_rawB_ints hp wa ia wb ib hr
+  exact ⟨hbytes, hash_eq_of_hashBytes_eq hbytes (by simp [Value.containsMarked, ma, mb])⟩
+
+/-- the full-strength clause -/
+def EqualValuesSameHash : Prop :=
+  ∀ a b : Value, equals a b = .ok (boolVal true) → hashBytes a = hashBytes b
+
+theorem equal_values_same_hash_false : ¬ EqualValuesSameHash := by
+  intro h
+  have c := hash_incoherent_counterexample
+  have := h _ _ c.1
+  rw [c.2.1, c.2.2.1] at this
+  revert this
+  decide +kernel
+
+example : Payload.intMember (.tuple [.number, .list .string])
+    (.seq [.n (.fin false 1 70 53), .seq [.s "a", .null]]) = true := by decide +kernel
+
+/-- 2^70 as a float64, as a 512-bit parse, as a 64-bit integer: `Equals`, and hashed alike -/
+example : equals (numVal (.fin false 1 70 53)) (numVal (.fin false 1 70 512)) = .ok (boolVal true) ∧
+    hashBytes (numVal (.fin false 1 70 53)) = hashBytes (numVal (.fin false 1 70 512)) :=
+  ⟨by decide +kernel, (equal_values_same_hash_ints .number _ _ rfl rfl (by decide +kernel) (by decide +kernel)
+    (by decide +kernel)).1⟩
+
+/-! #### the defaults of `ctyRules` are not taken (audit item 4) -/
+
+/-- `ctyRules e` totalises `Hash`, `Equivalent` and `Less` (`| _ => 0`, `| _ =>
+false`).  On admitted members whose strings the model can quote
+(`Payload.quotable`: every rune in the modelled part of strconv's printable table)
+the totalisation is idle: `Value.Hash` RETURNS and `ctyRules.hash` is what it
+returns; `Equals` returns the known bool `ctyRules.equiv`.  So `Lawful.hash_eq`
+there is a statement about the real hash, not `0 = 0`. -/
+theorem cty_rules_are_the_real_functions (e : Ty) (hw : e.wf = true) (hp : e.plain = true) (a b : Payload)
+    (ha : a.intMember e = true) (hb : b.intMember e = true) (qa : a.quotable = true) :
+    (∃ bs, hashBytes ⟨e, a⟩ = .ok bs ∧ Value.hash ⟨e, a⟩ = .ok (crc32 bs)) ∧
+    Value.hash ⟨e, a⟩ = .ok ((ctyRules e).hash a) ∧
+    equals ⟨e, a⟩ ⟨e, b⟩ = .ok (boolVal ((ctyRules e).equiv a b)) := by
+  obtain ⟨wa, ka, ma, _⟩ := Payload.intMember_spec ha
+  obtain ⟨wb, kb, mb, _⟩ := Payload.intMember_spec hb
+  exact ⟨hash_ok hp wa ma qa, ctyRules_hash_real hp wa ma qa, ctyRules_equiv_real hw hp wa ka ma wb kb mb⟩
+
+example : Payload.quotable (.seq [.s "a\"\\\n é가", .null, .smap ["k"] [.s ""]]) = true := by decide +kernel
+
+/-! #### cty's rules are lawful on ALL integer-numbered members (audit item 3, missing theorem (b)) -/
+
+/-- the members, as a type -/
+def IntMember (e : Ty) : Type := { p : Payload // p.intMember e = true }
+
+/-- `setRules{e}` restricted to those members (the very functions of `ctyRules e`) -/
+def ctyRulesOnInts (e : Ty) : Rules (IntMember e) where
+  hash := fun p => (ctyRules e).hash p.1
+  equiv := fun a b => (ctyRules e).equiv a.1 b.1
+  less := (ctyRules e).less.map fun l a b => l a.1 b.1
+
+/-- **cty's `setRules` meet the contract of `cty/set`** on every well-formed,
+wholly known, mark-free member of a plain element type whose numbers are
+integers: no list of admitted numbers, no `decide` left to the caller. -/
+theorem cty_rules_lawful_ints (e : Ty) (hw : e.wf = true) (hp : e.plain = true) : (ctyRulesOnInts e).Lawful := by
+  have sp := fun a : IntMember e => Payload.intMember_spec a.2
+  have eqv : ∀ a b : IntMember e, (ctyRulesOnInts e).equiv a b = rawB e a.1 b.1 := fun a b =>
+    ctyRules_equiv_eq hw hp (sp a).1 (sp a).2.1 (sp a).2.2.1 (sp b).1 (sp b).2.1 (sp b).2.2.1
+  refine ⟨fun a => ?_, fun a b h => ?_, fun a b c h1 h2 => ?_, fun a b h => ?_⟩
+  · rw [eqv]; exact rawB_refl e a.1 hp (sp a).1
+  · rw [eqv] at h ⊢; rw [rawB_symm e b.1 a.1 hp (sp b).1 (sp a).1]; exact h
+  · rw [eqv] at h1 h2 ⊢; exact rawB_trans e a.1 b.1 c.1 hp (sp a).1 (sp b).1 (sp c).1 h1 h2
+  · rw [eqv] at h
+    exact ctyRules_hash_eq_ints hp a.2 b.2 h
+
+/-- **Value sets of such members refine mathematical sets** — `valueSet_refines`
+without its `HashCoherentNums` hypothesis: every history keeps the invariant (no
+two `Equals` members, each in the bucket of its hash), ends in the mathematical
+results, and answers every call as the mathematical sets dictate. -/
+theorem valueSet_refines_ints (e : Ty) (hw : e.wf = true) (hp : e.plain = true)
+    (ops : List (SetOp (IntMember e))) (st : List (SetImpl (IntMember e)))
+    (h : ∀ i, SetImpl.Inv (ctyRulesOnInts e) (SetImpl.getReg st i)) :
+    (∀ i, SetImpl.Inv (ctyRulesOnInts e) (SetImpl.getReg (SetImpl.runRegs (ctyRulesOnInts e) ops st).1 i)) ∧
+    SetImpl.absRegs (ctyRulesOnInts e) (SetImpl.runRegs (ctyRulesOnInts e) ops st).1 =
+      SetImpl.specRun (ctyRulesOnInts e) ops (SetImpl.absRegs (ctyRulesOnInts e) st) ∧
+    SetImpl.OutsOk (ctyRulesOnInts e) (SetImpl.absRegs (ctyRulesOnInts e) st) ops
+      (SetImpl.runRegs (ctyRulesOnInts e) ops st).2 :=
+  have hR := cty_rules_lawful_ints e hw hp
+  ⟨set_inv hR ops st h, set_refines hR ops st h⟩
+
+/-- …and building from any permutation of the same inputs gives the same
+mathematical set and the same length. -/
+theorem valueSet_built_order_indep_ints (e : Ty) (hw : e.wf = true) (hp : e.plain = true)
+    (l l' : List (IntMember e)) (hperm : l.Perm l') :
+    SetImpl.Inv (ctyRulesOnInts e) (SetImpl.fromList (ctyRulesOnInts e) l) ∧
+    (∀ y, SetImpl.abs (ctyRulesOnInts e) (SetImpl.fromList (ctyRulesOnInts e) l) y ↔
+      SetImpl.abs (ctyRulesOnInts e) (SetImpl.fromList (ctyRulesOnInts e) l') y) ∧
+    SetImpl.length (SetImpl.fromList (ctyRulesOnInts e) l) = SetImpl.length (SetImpl.fromList (ctyRulesOnInts e) l') :=
+  have hR := cty_rules_lawful_ints e hw hp
+  ⟨(set_inv_algebra hR SetImpl.empty SetImpl.empty).2.2.2.2 l, (set_built_order_indep hR l l' hperm).2.1,
+    (set_built_order_indep hR l l' hperm).2.2⟩
+
+/-! #### iteration order of sets of strings, bools, integers (missing theorem (a)) -/
+
+/-- `setRules.Less` **never fails** on unmarked well-formed members of a primitive
+element type (null and unknown members included) and is decided by the plain
+specification `primLessB`; `ctyRules.less` is what it returns. -/
+theorem setLess_total_prim (e : Ty) (he : e.isPrim = true) (x y : Payload) (wx : x.shaped e = true)
+    (wy : y.shaped e = true) (mx : x.containsMarked = false) (my : y.containsMarked = false) :
+    setLess e x y = .ok (primLessB e x y) ∧ (ctyRules e).less = some (ctyLessB e) ∧
+      ctyLessB e x y = primLessB e x y :=
+  ⟨setLess_prim he wx wy (not_isMarked_of_clean mx) (not_isMarked_of_clean my), rfl,
+    (ctyLessB_prim he wx wy mx my).2⟩
+
+/-- **`setRules.Less` is a strict order, total between inequivalent members**, on
+the admitted members of a primitive element type: the hypothesis of
+`values_order_indep_of_total`, discharged for cty's own rules. -/
+theorem cty_less_strict_total_prim (e : Ty) (he : e.isPrim = true) (l : List (IntMember e)) :
+    (ctyRulesOnInts e).less = some (fun a b => ctyLessB e a.1 b.1) ∧
+    SetImpl.StrictTotalOn (ctyRulesOnInts e) (fun a b => ctyLessB e a.1 b.1) l := by
+  have sp := fun a : IntMember e => Payload.intMember_spec a.2
+  have hl : ∀ a b : IntMember e, ctyLessB e a.1 b.1 = primLessB e a.1 b.1 := fun a b =>
+    (ctyLessB_prim he (sp a).1 (sp b).1 (sp a).2.2.1 (sp b).2.2.1).2
+  obtain ⟨hp, hw⟩ := Ty.isPrim_plain he
+  refine ⟨rfl, fun a _ => ?_, fun a _ b _ c _ h1 h2 => ?_, fun a _ b _ hne => ?_⟩
+  · rw [hl]; exact primLessB_irrefl he (sp a).1
+  · rw [hl] at h1 h2 ⊢; exact primLessB_trans he a.2 b.2 c.2 h1 h2
+  · rw [hl, hl]
+    have : (ctyRulesOnInts e).equiv a b = rawB e a.1 b.1 :=
+      ctyRules_equiv_eq hw hp (sp a).1 (sp a).2.1 (sp a).2.2.1 (sp b).1 (sp b).2.1 (sp b).2.2.1
+    rw [this] at hne
+    exact primLessB_total he a.2 b.2 hne
+
+/-- **Value-level iteration order.**  Two sets of strings, of bools or of integers
+(with or without a null member) that hold the same members — whatever the
+insertion order, bucket layout or history — iterate identically. -/
+theorem valueSet_iteration_order_indep_prim (e : Ty) (he : e.isPrim = true) {s1 s2 : SetImpl (IntMember e)}
+    (h1 : SetImpl.Inv (ctyRulesOnInts e) s1) (hperm : (SetImpl.values s1).Perm (SetImpl.values s2)) :
+    SetImpl.iter (ctyRulesOnInts e) s1 = SetImpl.iter (ctyRulesOnInts e) s2 := by
+  have h := cty_less_strict_total_prim e he (SetImpl.values s1)
+  simp only [SetImpl.iter, h.1]
+  exact values_order_indep_of_total _ h1 hperm h.2
+
+/-- …in particular sets built from the same pairwise different inputs in any order. -/
+theorem valueSet_insertion_order_indep_prim (e : Ty) (he : e.isPrim = true) {l l' : List (IntMember e)}
+    (hl : SetImpl.Inequiv (ctyRulesOnInts e) l) (hperm : l.Perm l') :
+    SetImpl.iter (ctyRulesOnInts e) (SetImpl.fromList (ctyRulesOnInts e) l) =
+      SetImpl.iter (ctyRulesOnInts e) (SetImpl.fromList (ctyRulesOnInts e) l') := by
+  have h := cty_less_strict_total_prim e he l
+  have hR := cty_rules_lawful_ints e (Ty.isPrim_plain he).2 (Ty.isPrim_plain he).1
+  simp only [SetImpl.iter, h.1]
+  exact values_order_indep_of_insertion hR _ hl hperm h.2
+
+/-! #### numbers: what of the trichotomy holds (audit item 2) -/
+
+/-- For ALL numbers (any precisions, infinities included): `<` and `>` are decided
+by the exact comparison, exclude each other, are each other's converse, and one
+of `<`, `>`, "equal in value" always holds. -/
+theorem lt_gt_exclusive (x y : Num) :
+    lessThan (numVal x) (numVal y) = .ok (boolVal (decide (Num.cmp x y < 0))) ∧
+    greaterThan (numVal x) (numVal y) = .ok (boolVal (decide (Num.cmp x y > 0))) ∧
+    ¬ (lessThan (numVal x) (numVal y) = .ok (boolVal true) ∧ greaterThan (numVal x) (numVal y) = .ok (boolVal true)) ∧
+    lessThan (numVal x) (numVal y) = greaterThan (numVal y) (numVal x) ∧
+    (lessThan (numVal x) (numVal y) = .ok (boolVal true) ∨ greaterThan (numVal x) (numVal y) = .ok (boolVal true) ∨
+      Num.cmp x y = 0) := by
+  have hs := NumCmp.cmp_swap x y
+  refine ⟨lessThan_num x y, greaterThan_num x y, ?_, ?_, ?_⟩
+  · rw [lessThan_num, greaterThan_num, boolVal_true_iff, boolVal_true_iff]
+    simp only [decide_eq_true_eq]; omega
+  · rw [lessThan_num, greaterThan_num, hs]
+    congr 2
+    simp only [decide_eq_decide]; omega
+  · rw [lessThan_num, greaterThan_num, boolVal_true_iff, boolVal_true_iff]
+    simp only [decide_eq_true_eq]; omega
+
+/-- **Trichotomy, where it holds**: exactly one of `<`, `=`, `>` — for every pair
+on which `rawNumberEqual` agrees with the exact comparison (a decidable
+condition; `trichotomy_counterexample` shows both ways of violating it). -/
+theorem trichotomy_partial (x y : Num) (h : Num.rawEqual x y = (Num.cmp x y == 0)) :
+    let l := lessThan (numVal x) (numVal y) = .ok (boolVal true)
+    let e := equals (numVal x) (numVal y) = .ok (boolVal true)
+    let g := greaterThan (numVal x) (numVal y) = .ok (boolVal true)
+    (l ∧ ¬ e ∧ ¬ g) ∨ (¬ l ∧ e ∧ ¬ g) ∨ (¬ l ∧ ¬ e ∧ g) := by
+  simp only [lessThan_num, greaterThan_num, equals_num, boolVal_true_iff, h, decide_eq_true_eq, beq_iff_eq]
+  omega
+
+/-- **All integers** (of any two precisions, e.g. 2^70 as a float64 and as a
+512-bit parse) satisfy the trichotomy. -/
+theorem trichotomy_ints (x y : Num) (hx : x.isInt = true) (hy : y.isInt = true) :
+    let l := lessThan (numVal x) (numVal y) = .ok (boolVal true)
+    let e := equals (numVal x) (numVal y) = .ok (boolVal true)
+    let g := greaterThan (numVal x) (numVal y) = .ok (boolVal true)
+    (l ∧ ¬ e ∧ ¬ g) ∨ (¬ l ∧ e ∧ ¬ g) ∨ (¬ l ∧ ¬ e ∧ g) :=
+  trichotomy_partial x y (isInt_coh hx hy)
+
+/-- the side condition also holds of non-integers, e.g. two float64 values; it is
+what fails for `w5f`/`w5p` and `w5f`/`w5c` -/
+example : Num.rawEqual w5f w4f = (Num.cmp w5f w4f == 0) ∧ Num.rawEqual w5f w5p ≠ (Num.cmp w5f w5p == 0) ∧
+    Num.rawEqual w5f w5c ≠ (Num.cmp w5f w5c == 0) := by decide +kernel
+
+/-! #### `Equals` is symmetric on marked operands too (audit item 2) -/
+
+/-- `equals_symm` without its two mark-freeness hypotheses: for any two well-formed
+values of plain types, marked at the top, inside, on both sides or not at all,
+`a.Equals(b)` and `b.Equals(a)` are the same value carrying the same marks (the
+union of all marks of both operands). -/
+theorem equals_symm_marks (a b : Value) (wa : a.shaped = true) (wb : b.shaped = true) (pa : a.ty.plain = true)
+    (pb : b.ty.plain = true) : equals a b = equals b a :=
+  equals_symm_marked a b wa wb pa pb
+
+example : equals ⟨.list .string, .seq [.marked ["m"] (.s "a"), .unk .unref]⟩ ⟨.list .string, .marked ["k"] (.seq [.s "a", .s "b"])⟩
+    = .ok ⟨.bool, .marked ["k", "m"] (.unk (.nullable .f))⟩ := by decide +kernel
+
+/-! #### set-TYPED values of primitive element type (missing theorem (c)) -/
+
+/-- Iterating a set value of strings, bools or numbers (`ElementIterator`,
+`AsValueSlice`: Go's `Set.Values()` with `setRules.Less`) never fails — null and
+unknown members included — and yields the stable sort of the stored members by
+`primLessB`. -/
+theorem setIter_total_prim (e : Ty) (he : e.isPrim = true) (vs : List Payload)
+    (h : ∀ p ∈ vs, p.shaped e = true ∧ p.containsMarked = false) :
+    setIter e vs = .ok (SetImpl.sortStable (primLessB e) vs) :=
+  setIter_prim he h
+
+/-- **`RawEquals` of two set values** of one primitive element type never fails and
+is: same number of members, and the two iteration orders agree position by
+position (`rawBList`). -/
+theorem rawEquals_set_prim (e : Ty) (he : e.isPrim = true) (ix iy : List Int) (xs ys : List Payload)
+    (hx : ∀ p ∈ xs, p.shaped e = true ∧ p.containsMarked = false)
+    (hy : ∀ p ∈ ys, p.shaped e = true ∧ p.containsMarked = false) :
+    rawEq ⟨.set e, .sset ix xs⟩ ⟨.set e, .sset iy ys⟩ =
+      .ok (decide (xs.length = ys.length) &&
+        rawBList e (SetImpl.sortStable (primLessB e) xs) (SetImpl.sortStable (primLessB e) ys)) :=
+  rawEq_set_prim he hx hy
+
+/-- `RawEquals` is reflexive on set values of primitive element type (members may be
+null or unknown with any refinement). -/
+theorem rawEquals_refl_set_prim (e : Ty) (he : e.isPrim = true) (ids : List Int) (vs : List Payload)
+    (h : ∀ p ∈ vs, p.shaped e = true ∧ p.containsMarked = false) :
+    rawEq ⟨.set e, .sset ids vs⟩ ⟨.set e, .sset ids vs⟩ = .ok true := by
+  rw [rawEq_set_prim he h h]
+  simp [rawBList_refl he (fun p hp => h p ((SetImpl.mem_sortStable _ _ _).mp hp))]
+
+/-- …symmetric and transitive as well: **`RawEquals` is an equivalence on set values
+of primitive element type** (the first clause of C03 on set-typed values). -/
+theorem rawEquals_equiv_set_prim (e : Ty) (he : e.isPrim = true) (ix iy iz : List Int) (xs ys zs : List Payload)
+    (hx : ∀ p ∈ xs, p.shaped e = true ∧ p.containsMarked = false)
+    (hy : ∀ p ∈ ys, p.shaped e = true ∧ p.containsMarked = false)
+    (hz : ∀ p ∈ zs, p.shaped e = true ∧ p.containsMarked = false) :
+    rawEq ⟨.set e, .sset ix xs⟩ ⟨.set e, .sset iy ys⟩ = rawEq ⟨.set e, .sset iy ys⟩ ⟨.set e, .sset ix xs⟩ ∧
+    (rawEq ⟨.set e, .sset ix xs⟩ ⟨.set e, .sset iy ys⟩ = .ok true →
+      rawEq ⟨.set e, .sset iy ys⟩ ⟨.set e, .sset iz zs⟩ = .ok true →
+      rawEq ⟨.set e, .sset ix xs⟩ ⟨.set e, .sset iz zs⟩ = .ok true) := by
+  have mem := fun (l : List Payload) (h : ∀ p ∈ l, p.shaped e = true ∧ p.containsMarked = false) p
+    (hp : p ∈ SetImpl.sortStable (primLessB e) l) => h p ((SetImpl.mem_sortStable _ _ _).mp hp)
+  rw [rawEq_set_prim he hx hy, rawEq_set_prim he hy hx, rawEq_set_prim he hy hz, rawEq_set_prim he hx hz]
+  refine ⟨?_, fun h1 h2 => ?_⟩
+  · rw [rawBList_symm he (mem xs hx) (mem ys hy)]
+    congr 2
+    exact decide_eq_decide.mpr ⟨Eq.symm, Eq.symm⟩
+  · simp only [Res.ok.injEq, Bool.and_eq_true, decide_eq_true_eq] at h1 h2 ⊢
+    refine ⟨h1.1.trans h2.1, rawBList_trans he (mem xs hx) (mem ys hy) (mem zs hz) ?_ h1.2 h2.2⟩
+    rw [(SetImpl.sortStable_perm _ xs).length_eq, (SetImpl.sortStable_perm _ ys).length_eq]; exact h1.1
+
+/-- `cty.SetVal` of unmarked, quotable members of one primitive type IS the generic
+set built by `Add`ing the inputs in order under `setRules{e}`. -/
+theorem setVal_is_fromList_prim (e : Ty) (he : e.isPrim = true) (l : List Payload) (hne : l ≠ [])
+    (hl : ∀ p ∈ l, (p.shaped e = true ∧ p.containsMarked = false) ∧ p.quotable = true) :
+    mkSetVal (l.map fun p => (⟨e, p⟩ : Value)) = .ok ⟨.set e, setPayload (SetImpl.fromList (ctyRules e) l)⟩ :=
+  mkSetVal_prim he hne hl
+
+/-- **`SetValOrderIndependent`, where it holds.**  Sets built (`SetVal`, or any
+`Add` sequence) from a list and from a permutation of it — pairwise different
+wholly known strings, bools or integers of any precisions, with or without a
+null — are `RawEquals` and iterate identically: the full-strength clause
+`SetValOrderIndependent` restricted to primitive element types and integer
+numbers (its refutations `set_order_counterexample` and the 0.1-at-two-precisions
+witness lie outside: a tuple type, a non-integer). -/
+theorem setVal_order_independent_partial (e : Ty) (he : e.isPrim = true) (l l' : List Payload)
+    (hl : ∀ p ∈ l, p.intMember e = true) (hne : l.Pairwise (fun a b => rawB e a b = false)) (hperm : l.Perm l') :
+    rawEq ⟨.set e, setPayload (SetImpl.fromList (ctyRules e) l)⟩
+      ⟨.set e, setPayload (SetImpl.fromList (ctyRules e) l')⟩ = .ok true ∧
+    setIter e (SetImpl.values (SetImpl.fromList (ctyRules e) l)) =
+      setIter e (SetImpl.values (SetImpl.fromList (ctyRules e) l')) := by
+  obtain ⟨hp, hw⟩ := Ty.isPrim_plain he
+  have hl' : ∀ p ∈ l', p.intMember e = true := fun p h => hl p (hperm.mem_iff.mpr h)
+  -- pairwise difference is symmetric between admitted members, so it survives the permutation
+  have hne' : l'.Pairwise (fun a b => rawB e a b = false) := by
+    have h1 : l.Pairwise (fun a b => (a.intMember e = true ∧ b.intMember e = true) ∧ rawB e a b = false) :=
+      List.Pairwise.imp_of_mem (fun ha hb h => ⟨⟨hl _ ha, hl _ hb⟩, h⟩) hne
+    have h2 := (List.Perm.pairwise_iff (l₁ := l) (l₂ := l') (fun {a b} h => by
+      refine ⟨⟨h.1.2, h.1.1⟩, ?_⟩
+      rw [rawB_symm e b a hp (Payload.intMember_spec h.1.2).1 (Payload.intMember_spec h.1.1).1]; exact h.2) hperm).mp h1
+    exact h2.imp fun h => h.2
+  have p1 := values_fromList_perm_ints hw hp hl hne
+  have p2 := values_fromList_perm_ints hw hp hl' hne'
+  have hx : ∀ p ∈ SetImpl.values (SetImpl.fromList (ctyRules e) l), p.intMember e = true :=
+    fun p h => hl p (p1.mem_iff.mp h)
+  have hy : ∀ p ∈ SetImpl.values (SetImpl.fromList (ctyRules e) l'), p.intMember e = true :=
+    fun p h => hl' p (p2.mem_iff.mp h)
+  have hnx : (SetImpl.values (SetImpl.fromList (ctyRules e) l)).Pairwise (fun a b => rawB e a b = false) := by
+    have h1 : l.Pairwise (fun a b => (a.intMember e = true ∧ b.intMember e = true) ∧ rawB e a b = false) :=
+      List.Pairwise.imp_of_mem (fun ha hb h => ⟨⟨hl _ ha, hl _ hb⟩, h⟩) hne
+    have h2 := (List.Perm.pairwise_iff (fun {a b} h => by
+      refine ⟨⟨h.1.2, h.1.1⟩, ?_⟩
+      rw [rawB_symm e b a hp (Payload.intMember_spec h.1.2).1 (Payload.intMember_spec h.1.1).1]; exact h.2) p1.symm).mp h1
+    exact h2.imp fun h => h.2
+  have hsort := sortStable_prim_perm he hx hnx (p1.trans (hperm.trans p2.symm))
+  have hxm := fun p h => primMem_of_intMember (hx p h)
+  have hym := fun p h => primMem_of_intMember (hy p h)
+  refine ⟨?_, ?_⟩
+  · simp only [setPayload]
+    rw [rawEq_set_prim he hxm hym, hsort]
+    simp [(p1.trans (hperm.trans p2.symm)).length_eq,
+      rawBList_refl he (fun p hp => hym p ((SetImpl.mem_sortStable _ _ _).mp hp))]
+  · rw [setIter_prim he hxm, setIter_prim he hym, hsort]
+
+/-- two integers at different precisions and a null, in two insertion orders -/
+example :
+    mkSetVal [⟨.number, .n (.fin false 1 70 53)⟩, ⟨.number, .null⟩, ⟨.number, .n (.fin false 3 0 512)⟩] =
+      .ok ⟨.set .number, setPayload (SetImpl.fromList (ctyRules .number)
+        [.n (.fin false 1 70 53), .null, .n (.fin false 3 0 512)])⟩ ∧
+    rawEq ⟨.set .number, setPayload (SetImpl.fromList (ctyRules .number)
+        [.n (.fin false 1 70 53), .null, .n (.fin false 3 0 512)])⟩
+      ⟨.set .number, setPayload (SetImpl.fromList (ctyRules .number)
+        [.n (.fin false 3 0 512), .n (.fin false 1 70 53), .null])⟩ = .ok true := by
+  refine ⟨setVal_is_fromList_prim .number rfl [.n (.fin false 1 70 53), .null, .n (.fin false 3 0 512)]
+      (by simp) (by decide +kernel),
+    (setVal_order_independent_partial .number rfl [.n (.fin false 1 70 53), .null, .n (.fin false 3 0 512)]
+      [.n (.fin false 3 0 512), .n (.fin false 1 70 53), .null] (by decide +kernel) ?_ ?_).1⟩
+  · have h : Num.rawEqual (.fin false 1 70 53) (.fin false 3 0 512) = false := by decide +kernel
+    simp [rawB, h]
+  · exact (List.Perm.cons _ (List.Perm.swap _ _ _)).trans (List.Perm.swap _ _ _) |>.trans
+      (List.Perm.cons _ (List.Perm.refl _)) |>.symm |>.symm
 
 end Values
 /-! ######################## end of SECTION «values» ######################## -/
